@@ -74,7 +74,43 @@ pub fn bases() -> Vec<Module> {
             ],
         ),
     )]);
-    vec![b1, b2, b3, b4, b5]
+    let plain = vec![b1, b2, b3, b4, b5];
+    // the same programs with Comment cards in front of and between the cards of every function,
+    // closure and composite body: comments emit no code but count in card indices
+    let mut all = plain.clone();
+    all.extend(plain.iter().map(with_comments));
+    all
+}
+
+fn with_comments(m: &Module) -> Module {
+    fn interleave(cards: &[C]) -> Vec<C> {
+        let mut out = Vec::new();
+        for (i, c) in cards.iter().enumerate() {
+            if i % 2 == 0 {
+                out.push(C::Comment(format!("note {i}")));
+            }
+            out.push(card(c));
+        }
+        out
+    }
+    fn card(c: &C) -> C {
+        let mut c = c.clone();
+        match &mut c {
+            C::Closure(_, cards) => *cards = interleave(cards),
+            C::Composite(_, cards) if !cards.is_empty() && !cards.last().map(|x| x.produces_value()).unwrap_or(false) => *cards = interleave(cards),
+            _ => {
+                for ch in c.children_mut() {
+                    *ch = card(ch);
+                }
+            }
+        }
+        c
+    }
+    Module {
+        submodules: m.submodules.iter().map(|(n, s)| (n.clone(), with_comments(s))).collect(),
+        functions: m.functions.iter().map(|(n, f)| (n.clone(), Func { params: f.params.clone(), cards: interleave(&f.cards) })).collect(),
+        imports: m.imports.clone(),
+    }
 }
 
 pub fn injections() -> Vec<C> {
